@@ -1,5 +1,6 @@
 #!/bin/bash
 # usage: tools/sweep.sh <tier> <seed>... — runs every check at each seed and keeps failing outputs under work/sweep/
+export DBUS_SESSION_BUS_ADDRESS="${DBUS_SESSION_BUS_ADDRESS:-unix:path=/nonexistent/vmon-no-session-bus}"   # no session bus daemon per process (keyring init)
 tier=$1; shift
 cd /verif; mkdir -p work/sweep
 for s in "$@"; do
